@@ -391,6 +391,12 @@ def c18(ctx):
     ok, _ = model_check(ctx, "FieldLimbs32.tla", "FieldLimbs32_6neg.cfg", expect_ok=False)   # control: r3 = r3*19 without the halving
     if ok:
         raise Infra("model control failed: FieldLimbs32 accepts Mul without the halving of the doubled odd limbs")
+    # word-size headroom at the REAL limb sizes: interval analysis of every point formula over the 10x25.5 layout
+    model_check(ctx, "FieldBounds32.tla", "FieldBounds32_code.cfg")
+    for neg, what in (("sub_nocarry", "a Sub without its partial carry"), ("three_adds", "three additions in a row feeding Mul")):
+        ok, _ = model_check(ctx, "FieldBounds32.tla", "FieldBounds32_%s.cfg" % neg, expect_ok=False)
+        if ok:
+            raise Infra("model control failed: FieldBounds32 accepts " + what)
     model_check(ctx, "MCDecode.tla", "MCDecode.cfg")
     num_family(ctx, NUM_CONFIGS_THOROUGH if ctx.thorough else NUM_CONFIGS_QUICK)
     finish(ctx, "field operations of both limb layouts (5x51 in the default build, 10x25.5 with force32bit) driven on reduced elements from limb-boundary byte patterns (each limb 0 / 1 / mask-19 / mask-1 / mask / random, "
